@@ -56,6 +56,8 @@ def container(sh):
             s.append(f"let _ = c.set({e1});")
         s.append(f"let v: gc_arena::lock::OnceLock<{t1}> = gc_arena::lock::OnceLock::from(c);")
         return s, "&v", f
+    if name == "DynTrait":
+        return [f"let v: Box<dyn ShapeDyn<'gc> + 'gc> = Box::new({e1});"], "&*v", f
     if name == "SliceWithHeader":
         return [f"let h = {e1};",
                 f"let g = gc_arena::GcSliceWithHeaderBuilder::<{t1}, {t2}>::new({n}).write_header(h).write_slice_with(mc, |_| {e2});"], "&*g", f
@@ -177,6 +179,9 @@ def render(grid_path, out_path):
         f.write("// GENERATED by /verif/gen/render_shapes.py from TLC's enumeration of TraceShape.tla -- do not edit\n")
         f.write("use gc_arena::{Collect, Gc, GcWeak, Mutation};\nuse super::{Exp, observe};\n\n")
         f.write('#[cfg(feature = "enum-map")]\n#[derive(enum_map::Enum, Clone, Copy)]\npub enum K2 { A, B }\n\n')
+        f.write("pub trait ShapeDyn<'gc>: 'gc + gc_arena::collect::DynCollect<'gc> {}\n"
+                "impl<'gc, T: Collect<'gc> + 'gc> ShapeDyn<'gc> for T {}\n"
+                "gc_arena::collect::dyn_collect!(dyn ShapeDyn<'gc>);\n\n")
         f.write("mod types {\n    use gc_arena::{Collect, Gc, GcWeak};\n" + "\n".join("    " + t.replace("\n", "\n    ") for t in types) + "\n}\nuse types::*;\n\n")
         f.write("\n\n".join(fns))
         f.write("\n\npub fn run_all<'gc>(mc: &Mutation<'gc>, out: &mut String) {\n    " + "\n    ".join(calls) + "\n}\n")
